@@ -1,7 +1,7 @@
 """C11 — REPL evaluation is equivalent to evaluating the lines as one program (ordering / commit clauses)."""
 from qvlib.extract import CheckError
 from qvlib.facts import op_local, op_place
-from qvlib.paths import Flow, call_matches, discr_switches, explore, path_desc
+from qvlib.paths import Flow, agg_sites, call_matches, discr_switches, explore, path_desc
 
 CRATES = None
 REPL = "quiver_environment::repl::Repl"
@@ -294,8 +294,80 @@ def r7_session_resources_survive_lines(ctx):
     ctx.floors[:] = [f for f in ctx.floors if f["rule"] != "R-C14-3"]
 
 
+def r8_session_carried_forward(ctx):
+    R = "R-C11-8"
+    ctx.rule(R, "what a line inherits is carried forward: (a) every `Compiled` that Compiler::compile returns reports bindings COMPUTED FROM the "
+                "`existing_bindings` it was given (any dependence, through the root scope) — a result built without them (an early return for an empty or "
+                "comment-only line) makes the REPL forget every earlier variable and alias; (b) Executor::update_program REPLACES the derived type "
+                "tables by the ones recomputed for the whole merged program (shared with R-C08-3) — rows kept from an earlier line describe an older "
+                "program, so a later line behaves differently from the same source compiled as one program")
+    F = ctx.facts
+    from qvlib.paths import rv_source_locals
+    b = F.body("quiver_compiler::compiler::Compiler::compile")
+    fl = Flow(b, through_named=True)
+    ex = b.param_by_type(lambda ty: ty.startswith("&") and "HashMap<alloc::string::String, quiver_compiler::compiler::scopes::Binding" in ty, what="existing_bindings parameter")
+    deps = {}
+
+    def add(d, srcs):
+        deps.setdefault(d, set()).update(x for x in srcs if x is not None)
+    for bi, si, st in b.stmts():
+        if st["k"] == "assign":
+            add(st["p"]["l"], rv_source_locals(st["rv"]))
+            if st["p"]["pr"]:
+                add(fl.canon_local(st["p"]["l"])[0], rv_source_locals(st["rv"]))
+    for bi, t in b.calls():
+        al = [(op_place(a) or {}).get("l") for a in t["args"]]
+        add(t["dest"]["l"], al)
+        for a in t["args"]:
+            pl = op_place(a)
+            if pl and (b.local_ty(pl["l"]) or "").startswith("&mut"):
+                add(fl.canon_local(pl["l"])[0], [x for x in al if x != pl["l"]])
+    # reading a value through a reference depends on the referent
+    for l in list(deps):
+        c = fl.canon_local(l)[0]
+        if c != l:
+            add(l, [c])
+
+    def closure_of(l):
+        seen = set()
+        work = [l]
+        while work:
+            x = work.pop()
+            if x in seen:
+                continue
+            seen.add(x)
+            work.extend(deps.get(x, ()))
+            c = fl.canon_local(x)[0]
+            if c not in seen:
+                work.append(c)
+        return seen
+    n = 0
+    for bi, si, st in agg_sites(b, "compiler::Compiled"):
+        fields = st["rv"].get("fields") or []
+        if "bindings" not in fields:
+            continue
+        n += 1
+        op = st["rv"]["ops"][fields.index("bindings")]
+        pl = op_place(op)
+        ok = bool(pl) and ex in closure_of(pl["l"])
+        ctx.check(ok, R, "%s|Compiled.bindings#%d" % (b.key, n - 1), "the reported bindings depend on existing_bindings",
+                  "Compiler::compile can return a result whose bindings are not computed from the bindings it was given: the session forgets its "
+                  "variables and type aliases after such a line", b.loc(bi, si))
+    ctx.floor(R, "Compiled constructions in Compiler::compile", n, 1)
+    from rules import c08
+    before = len(ctx.obs)
+    c08.r3_update_program_replaces(ctx)
+    for o in ctx.obs[before:]:
+        o["rule"] = R
+    ctx.rules.pop("R-C08-3", None)
+    for f in ctx.floors:
+        if f["rule"] == "R-C08-3":
+            f["rule"] = R
+
+
 def run(ctx):
-    ctx.run_rules([r1_commit_after_success, r2_compact, r3_clones, r4_resume_feeds_result, r5_persistent_locals, r6_line_merge, r7_session_resources_survive_lines])
+    ctx.run_rules([r1_commit_after_success, r2_compact, r3_clones, r4_resume_feeds_result, r5_persistent_locals, r6_line_merge, r7_session_resources_survive_lines,
+                   r8_session_carried_forward])
     return (
         "Decides the ordering/commit clauses behind 'a rejected line leaves the session exactly as it was' and the alignment plumbing: session "
         "fields and the process are touched only after the compile succeeded, compaction precedes compilation and re-indexes bindings and locals by "
